@@ -229,6 +229,7 @@ func checkReposition(in HistInput) string {
 }
 
 func runC03(r *chk.Run) {
+	RunTwoStreamsFirst(r)
 	depth := 4
 	if r.Thorough() {
 		depth = 5
@@ -366,7 +367,6 @@ func runC03(r *chk.Run) {
 	}
 	hr.finish()
 	RunChecksumChange(r)
-	RunNested(r)
 	_ = resumePoints
 	r.Set("alphabet", alpha)
 	r.Set("depth", depth)
